@@ -75,9 +75,12 @@ def ob_policy(with_versions):
         sub_overrides = decide(sym_bool('subproject_overrides_name'))
         wanted = []
         sub_ver = '1.0'
+        vop = '>='
         if with_versions:
-            w_ = sym_str(1, 'wanted_digit', alphabet='0123456789'); v_ = sym_str(1, 'subproject_version_digit', alphabet='0123456789')
-            wanted = ['>=' + w_]; sub_ver = v_
+            w_ = sym_str(1, 'wanted_digit', alphabet='0123456789')
+            vop = ['>=', '<', '<=', '!=', '==', '>'][choose(6, 'constraint_operator')]
+            v_ = 'undefined' if choose(2, 'subproject_version_unknown') else sym_str(1, 'subproject_version_digit', alphabet='0123456789')
+            wanted = [vop + w_]; sub_ver = v_
         calls = {'system': 0, 'subproject': 0}
         interp = types.SimpleNamespace()
         interp.subproject = ''; interp.current_node = None
@@ -108,9 +111,17 @@ def ob_policy(with_versions):
         interp.do_subproject = do_subproject
         sysdep = mkdep('system', True, '9')
 
+        sys_ok = [sys_present]
+
         def find_external_dependency(name, env, kwargs):
+            # contract of the real function: a dependency that is present but does not satisfy the version constraints is not found
             calls['system'] += 1
-            if sys_present: return sysdep
+            ok = sys_present
+            if ok and kwargs.get('version'):
+                from mesonbuild.mesonlib import version_compare_many
+                ok = decide(bt_any(version_compare_many('9', kwargs['version'])[0]))
+            sys_ok[0] = ok
+            if ok: return sysdep
             if kwargs.get('required'): raise DependencyException('not found')
             return NotFoundDependency(name, env)
         DF.dependencies = types.SimpleNamespace(find_external_dependency=find_external_dependency, get_dep_identifier=dependencies.get_dep_identifier)
@@ -135,13 +146,18 @@ def ob_policy(with_versions):
         nofb = wm == 'nofallback'
         ver_ok = True
         if with_versions:
-            ver_ok = decide(bt_any(sym_int_of_str(sub_ver) >= sym_int_of_str(wanted[0][2:])))
+            if sub_ver == 'undefined':
+                ver_ok = False          # dependency.yaml: version requirements are never met if the version is unknown
+            else:
+                a_, b_ = sym_int_of_str(sub_ver), sym_int_of_str(wanted[0][len(vop):])
+                ver_ok = decide(bt_any({'>=': a_ >= b_, '<': a_ < b_, '<=': a_ <= b_, '!=': a_ != b_, '==': a_ == b_, '>': a_ > b_}[vop]))
         fail = 'error' if required else 'notfound'
         sub_result = ('subproject' if ver_ok else fail) if sub_ok else fail
         if forced and has_fb:
             exp = sub_result
             check(calls['system'] == 0, 'the system is not consulted when fallback is forced')
-        elif sys_present:
+        elif sys_present and (not with_versions or decide(bt_any({'>=': 9 >= sym_int_of_str(wanted[0][len(vop):]), '<': 9 < sym_int_of_str(wanted[0][len(vop):]), '<=': 9 <= sym_int_of_str(wanted[0][len(vop):]),
+                                                                   '!=': 9 != sym_int_of_str(wanted[0][len(vop):]), '==': 9 == sym_int_of_str(wanted[0][len(vop):]), '>': 9 > sym_int_of_str(wanted[0][len(vop):])}[vop]))):
             exp = 'system'
         elif has_fb and not nofb:
             exp = sub_result
@@ -166,7 +182,9 @@ def ob_override():
     def h():
         found = decide(sym_bool('override_found')); required = decide(sym_bool('required'))
         wm = WM[choose(len(WM), 'wrap_mode')]
-        over_ver = sym_str(1, 'override_version', alphabet='0123456789'); want = sym_str(1, 'wanted', alphabet='0123456789')
+        over_ver = 'undefined' if choose(2, 'override_version_unknown') else sym_str(1, 'override_version', alphabet='0123456789')
+        want = sym_str(1, 'wanted', alphabet='0123456789')
+        vop = ['>=', '<', '<=', '!=', '==', '>'][choose(6, 'constraint_operator')]
         calls = {'system': 0}
         interp = types.SimpleNamespace(subproject='', current_node=None)
         interp.coredata = types.SimpleNamespace(optstore=types.SimpleNamespace(get_value_for=lambda k: wm if k.name == 'wrap_mode' else []), deps={MachineChoice.HOST: {}})
@@ -182,11 +200,15 @@ def ob_override():
         DF.dependencies = types.SimpleNamespace(find_external_dependency=find_external_dependency, get_dep_identifier=dependencies.get_dep_identifier)
         df = DF.DependencyFallbacksHolder(interp, ['foo'], MachineChoice.HOST)
         try:
-            dep = df.lookup({'required': required, 'native': MachineChoice.HOST, 'version': ['>=' + want]})
+            dep = df.lookup({'required': required, 'native': MachineChoice.HOST, 'version': [vop + want]})
             res = dep.label if dep.found() else 'notfound'
         except DependencyException:
             res = 'error'
-        ok = found and decide(bt_any(sym_int_of_str(over_ver) >= sym_int_of_str(want)))
+        if over_ver == 'undefined':
+            ok = False              # never met if the version is unknown
+        else:
+            a_, b_ = sym_int_of_str(over_ver), sym_int_of_str(want)
+            ok = found and decide(bt_any({'>=': a_ >= b_, '<': a_ < b_, '<=': a_ <= b_, '!=': a_ != b_, '==': a_ == b_, '>': a_ > b_}[vop]))
         check(res == ('override' if ok else ('error' if required else 'notfound')), 'an overridden dependency wins (and a mismatching or not-found override is final)')
         check(calls['system'] == 0, 'the system is not consulted for an overridden dependency')
         cover(res)
